@@ -1136,7 +1136,7 @@ func layoutExtRoundTrips(c *mon.Ctx, g *model.Gen, prop, format string, n int) {
 		switch t := x.(type) {
 		case *extprof.ExtNestedClaims:
 			v, p := t.NestedFields()
-			ps = []*string{*v, *p}
+			ps = []*string{*v, *p, t.VSI}
 			if format == "json" {
 				ps = append(ps, t.Comment) // the JSON-only claim
 			} else {
@@ -1177,6 +1177,9 @@ func layoutExtRoundTrips(c *mon.Ctx, g *model.Gen, prop, format string, n int) {
 				}
 				if g.R.Intn(3) != 0 {
 					t.Internal, t.Comment = model.SP(g.NonEmptyText()), model.SP(g.NonEmptyText())
+				}
+				if g.R.Intn(2) == 0 {
+					t.VSI = model.SP("vendor " + g.NonEmptyText()) // the extension's own claim in a field NAMED like the base's VSI
 				}
 				t.Cache = "bookkeeping"
 			case *extprof.MixinClaims:
